@@ -83,7 +83,7 @@ def ops_for(cols, full_index):
     names = [c[0] for c in cols]
     ops = []
     for mask in itertools.product([False, True], repeat=n):
-        for form in ("vector", "callable", "list"):
+        for form in ("vector", "callable", "list", "int01", "intlist"):
             ops.append({"op": "filter", "mask": list(mask), "form": form})
             ops.append({"op": "filter_out", "mask": list(mask), "form": form})
     kind = cols[0][1]
@@ -222,6 +222,10 @@ def apply(d, op, n, kinds):
             return f(di.Vector(np.array(mask, dtype=bool)))
         if op["form"] == "callable":
             return f(lambda x: di.Vector(np.array(mask, dtype=bool)))
+        if op["form"] == "int01":
+            return f(np.array(mask, dtype="int64"))  # a 0/1 flag column used as the condition
+        if op["form"] == "intlist":
+            return f([int(m) for m in mask])
         return f(list(mask))
     if o == "filter_eq":
         return d.filter(**{op["col"]: op["_value"]})
